@@ -54,7 +54,7 @@ def build_targets(seed: int, batch: int, n: int, base: list[dict]) -> dict:
             if text is None:
                 continue
             sibling = (b["text"], b["id"])
-        mode = rng.choices(["auto", "outsinks", "outall", "explicit", "empty", "absent"], [0.35, 0.2, 0.1, 0.15, 0.10, 0.10])[0]
+        mode = rng.choices(["auto", "outsinks", "outall", "inall", "explicit", "empty", "absent"], [0.3, 0.2, 0.1, 0.1, 0.1, 0.1, 0.1])[0]
         inp, out = workload.decl(mode, text, rng)
         mask = workload.swarm_mask(rng)
         tid = f"{batch}.{len(targets)}"
@@ -137,13 +137,23 @@ def build_census(seed: int, nworlds: int, programs: list[dict], all_masks: bool)
             continue  # the most expensive derived programs are left to the thorough tier (decided by committed data)
         outall = workload.decl("outall", b["text"], None)
         outsinks = workload.decl("outsinks", b["text"], None)
-        for mask, mn, dm in ((workload.DEFAULT, "d", "auto"), (workload.ALL, "a", "auto"), (workload.DEFAULT, "o", "outsinks"), (workload.ALL, "p", "outall")):
+        inall = workload.decl("inall", b["text"], None)
+        pick = ("o", "i", "a", "o", "d", "i")[len(targets) % 6]
+        for mask, mn, dm in (
+            (workload.DEFAULT, "d", "auto"),
+            (workload.ALL, "a", "auto"),
+            (workload.DEFAULT, "o", "outsinks"),
+            (workload.DEFAULT, "i", "inall"),
+            (workload.ALL, "p", "outall"),
+        ):
             if not all_masks:
                 if mn == "p":
                     continue  # quick tier: all traits + every predicate an output is left to the thorough tier
-                if derived and mn != ("o" if len(targets) % 3 else ("a" if len(targets) % 2 else "d")):
-                    continue  # quick tier: a derived program gets one of the three variants (mostly outall)
-            inp, out = ("auto", "auto") if dm == "auto" else (outall if dm == "outall" else outsinks)
+                if derived and mn != pick:
+                    continue  # quick tier: a derived program gets one of the variants
+                if not derived and mn == "i" and len(targets) % 2:
+                    continue  # quick tier: every second base program with every predicate declared an input
+            inp, out = {"auto": ("auto", "auto"), "outall": outall, "outsinks": outsinks, "inall": inall}[dm]
             targets[f"c.{b['id']}.{mn}"] = {"text": b["text"], "inp": inp, "out": out, "mask": mask, "origin": b["id"], "decl": dm, "derived": derived}
     jobs = {}
     for w in range(nworlds):
